@@ -77,6 +77,14 @@ def gen_case(rng, tier):
         if k == "update":
             n = rng.choice([0, 1, 1, 2, 2, 3, 4, 6])
             feats = G.gff3_batch(rng, n, fcfg)
+            earlier = [f for o in ops for f in (o.get("feats") or []) if any(a[0] == "ID" for a in f["attrs"])]
+            for f in feats:
+                if earlier and rng.random() < 0.25:
+                    # the same record arriving again (equal columns and ID) with other attributes: what 'merge' really merges
+                    e0 = rng.choice(earlier)
+                    f["cols"] = list(e0["cols"])
+                    f["attrs"] = [a for a in f["attrs"] if a[0] != "ID"]
+                    f["attrs"].insert(0, ["ID", list([a for a in e0["attrs"] if a[0] == "ID"][0][1])])
             strat = rng.choice(STRATS)
             kw = {"merge_strategy": strat}
             if rng.random() < 0.35:
